@@ -172,7 +172,7 @@ def spec_gc_tick(ck, batch=3, old=2):
     ex = ck.engine(loop_bound=batch + old + 3, call_depth=8)
     # everything is irrelevant to the batch/history bookkeeping EXCEPT operations on the containers and values that carry it:
     # an unmodelled one of those must taint the path (no verdict), not be guessed
-    ex.benign_havoc = re.compile(r'^(?!.*(?:Vec|LinkedList|VecDeque|HashMap|mem::|Iter|Option::|Result::|slice::|Extend|FromIterator)).*$')
+    ex.benign_havoc = harness.IRRELEVANT
     ex.havoc_result_ok = True
     st = State()
     gsf = ['history_size', 'next_id', 'alive', 'terminated', 'gc_list', 'access_log', 'default_timeout']
